@@ -106,12 +106,12 @@ struct Ghost {
   unsigned caller_increfs;
   unsigned set_results; unsigned long t_set_result;
   unsigned submits; void* submit_to;
-  unsigned set_inlines; Core* set_inline_on; unsigned store_callbacks; unsigned steps; Core* step_to;
+  unsigned set_inlines; Core* set_inline_on; unsigned store_callbacks; unsigned steps; Core* step_to; unsigned starts; Core* start_of;
   unsigned dones;
 } g;
 static void ghost_reset(void) {
   g.clock = 1; g.func_calls = 0; g.exc = 0; g.func_dtors = 0; g.stores = 0; g.union_is_result = 0; g.caller_decrefs = 0; g.caller_increfs = 0;
-  g.set_results = 0; g.submits = 0; g.set_inlines = 0; g.store_callbacks = 0; g.steps = 0; g.dones = 0; g.t_store = g.t_decref = g.t_dtor = g.t_set_result = 0;
+  g.set_results = 0; g.submits = 0; g.set_inlines = 0; g.store_callbacks = 0; g.steps = 0; g.starts = 0; g.start_of = 0; g.dones = 0; g.t_store = g.t_decref = g.t_dtor = g.t_set_result = 0;
   g.exc_tag = nondet_ulong(); g.ret_tag = nondet_ulong(); g.ret_state = nondet_uint(); g.decref_of = 0; g.set_inline_on = 0; g.step_to = 0; g.submit_to = 0;
 }
 /* projections of a Result argument `r` (a Val of kind K_RESULT) */
@@ -225,7 +225,7 @@ FUNCS = {
 
 # ---- stubs and contracts shared by the Core jobs -------------------------------------------------------------
 STUBS = r"""
-#define G_EFFECTS g.clock, g.func_calls, g.func_arg_kind, g.func_arg_state, g.func_arg_tag, g.exc, g.func_dtors, g.t_dtor, g.stores, g.t_store, g.union_is_result, g.caller_decrefs, g.t_decref, g.decref_of, g.set_results, g.t_set_result, g.set_inlines, g.set_inline_on, g.store_callbacks, g.steps, g.step_to
+#define G_EFFECTS g.clock, g.func_calls, g.func_arg_kind, g.func_arg_state, g.func_arg_tag, g.exc, g.func_dtors, g.t_dtor, g.stores, g.t_store, g.union_is_result, g.caller_decrefs, g.t_decref, g.decref_of, g.set_results, g.t_set_result, g.set_inlines, g.set_inline_on, g.store_callbacks, g.steps, g.step_to, g.starts, g.start_of
 /* reads / writes of the union member _self: only while the union still holds the Callback (before Store) */
 static inline Core* self_caller(Core* s) { __CPROVER_assert(!g.union_is_result, "C03: _self.caller is read before the Result is stored over it (union)"); return s->_self.caller; }
 #define SELF_CALLER(s) self_caller(s)
@@ -318,7 +318,7 @@ RET_TAG = '(CFG_RETVOID ? 0 : g.ret_tag)'
 
 CONTRACT_ASYNC = r"""Transfer CallResolveAsync(Core* self, Val value)
 __CPROVER_requires(__CPROVER_is_fresh(self, sizeof(*self)) && g.func_calls == 0 && !g.exc && g.func_dtors == 0)
-__CPROVER_requires(g.stores == 0 && g.set_results == 0 && g.caller_decrefs == 0 && !g.union_is_result && g.set_inlines == 0 && g.store_callbacks == 0 && g.steps == 0)
+__CPROVER_requires(g.stores == 0 && g.set_results == 0 && g.caller_decrefs == 0 && !g.union_is_result && g.set_inlines == 0 && g.store_callbacks == 0 && g.steps == 0 && g.starts == 0)
 __CPROVER_requires(CFG_RUN ? 1 : self->_self.caller != 0)
 __CPROVER_requires(CFG_ASYNC ? (g.ret_core != 0) : 1)
 __CPROVER_assigns(G_EFFECTS, self->_result, self->_self)
@@ -327,7 +327,7 @@ __CPROVER_ensures((g.exc || !CFG_ASYNC || !g.func_calls) ==> (self->_self.caller
 /* the functor runs exactly once with `value` */
 __CPROVER_ensures(g.func_calls == 1 && (CFG_ARGVOID ? g.func_arg_kind == K_NOTHING : (g.func_arg_kind == value.kind && g.func_arg_state == value.state && g.func_arg_tag == value.tag)))
 /* a throw leaves everything to the handler */
-__CPROVER_ensures(g.exc ==> (g.stores == 0 && g.set_results == 0 && g.func_dtors == 0 && g.caller_decrefs == 0 && g.set_inlines == 0 && g.steps == 0))
+__CPROVER_ensures(g.exc ==> (g.stores == 0 && g.set_results == 0 && g.func_dtors == 0 && g.caller_decrefs == 0 && g.set_inlines == 0 && g.steps == 0 && g.starts == 0))
 /* synchronous result: stored (Result as is, plain value as Value, void as Unit) and published */
 __CPROVER_ensures((!g.exc && !CFG_ASYNC) ==> (g.stores == 1 && g.set_results == 1 && self->_result.state == RETSTATE && self->_result.tag == RETTAG && g.func_dtors == 1
     && g.caller_decrefs == ((!CFG_RUN && (!CFG_FROM_SHARED || CFG_CALL)) ? 1 : 0)))
@@ -336,7 +336,8 @@ __CPROVER_ensures((!g.exc && CFG_ASYNC) ==> (g.stores == 0 && g.set_results == 0
     && g.caller_decrefs == (CFG_RUN ? 0 : 1) && (CFG_RUN || (self->_self.unwrapping == 1 && g.decref_of == OLD(self->_self.caller)))))
 __CPROVER_ensures((!g.exc && CFG_ASYNC && !CFG_TASK) ==> (g.set_inlines == 1 && g.set_inline_on == g.ret_core && g.store_callbacks == 0 && g.steps == 0))
 /* an inner Task is started: its head receives this step as the continuation and the run token goes to the head */
-__CPROVER_ensures((!g.exc && CFG_ASYNC && CFG_TASK) ==> (g.set_inlines == 0 && g.store_callbacks == 1 && g.steps == 1 && g.step_to == g_task_head))
+__CPROVER_ensures((!g.exc && CFG_ASYNC && CFG_TASK) ==> (g.set_inlines == 0 && g.store_callbacks == 1
+    && ((g.steps == 1 && g.starts == 0 && g.step_to == g_task_head) || (g.steps == 0 && g.starts == 1 && g.start_of == g.ret_core))))
 """.replace('RETSTATE', RET_STATE).replace('RETTAG', RET_TAG)
 
 ASYNC_STUBS = r"""
@@ -347,9 +348,17 @@ __CPROVER_assigns(g.set_inlines, g.set_inline_on)
 __CPROVER_ensures(g.set_inlines == 1 && g.set_inline_on == inner);
 void StoreCallback(Core* inner, Core* callback) __CPROVER_requires(inner != 0) __CPROVER_assigns(g.store_callbacks) __CPROVER_ensures(g.store_callbacks == OLD(g.store_callbacks) + 1);
 Core* MoveToCaller(Core* head) __CPROVER_requires(head != 0) __CPROVER_assigns() __CPROVER_ensures(RET == g_task_head && RET != 0);
+/* the Task the functor returned may be of any kind; only MakeTask and coroutine heads may be started through Here(caller) - for
+   Schedule() / LazyContract() heads Here means "the Result of my caller / my awaited inner state is there" */
+unsigned char g_head_accepts_here;
 Transfer Step(Core* caller, Core* callback)
 __CPROVER_requires(callback != 0 && g.store_callbacks == 1)     /* the head may only be started after it knows its continuation */
+__CPROVER_requires(g_head_accepts_here)                         /* C02/C12: pre Here(head): the head accepts being started through Here */
 __CPROVER_assigns(g.steps, g.step_to) __CPROVER_ensures(g.steps == OLD(g.steps) + 1 && g.step_to == callback);
+/* detail::Start(core): MoveToCaller + one Submit of the head on its executor (proved in unit handles) - valid for every kind of head */
+void Start(Core* core)
+__CPROVER_requires(core != 0 && g.store_callbacks == 1 && g.starts == 0)
+__CPROVER_assigns(g.starts, g.start_of) __CPROVER_ensures(g.starts == 1 && g.start_of == core);
 """
 
 # the routing spec written from the property text (C02)
@@ -364,7 +373,7 @@ ROUTE = r"""
 
 CONTRACT_STATE = r"""Transfer CallResolveState(Core* self, Val r)
 __CPROVER_requires(__CPROVER_is_fresh(self, sizeof(*self)) && g.func_calls == 0 && !g.exc && g.func_dtors == 0 && r.kind == K_RESULT && r.state <= RS_Empty)
-__CPROVER_requires(g.stores == 0 && g.set_results == 0 && g.caller_decrefs == 0 && !g.union_is_result && g.set_inlines == 0 && g.store_callbacks == 0 && g.steps == 0)
+__CPROVER_requires(g.stores == 0 && g.set_results == 0 && g.caller_decrefs == 0 && !g.union_is_result && g.set_inlines == 0 && g.store_callbacks == 0 && g.steps == 0 && g.starts == 0)
 __CPROVER_requires(CFG_RUN ? 1 : self->_self.caller != 0)
 __CPROVER_requires(CFG_ASYNC ? (g.ret_core != 0) : 1)
 __CPROVER_assigns(G_EFFECTS, self->_result, self->_self)
@@ -377,13 +386,13 @@ __CPROVER_ensures(g.func_calls ==> ROUTE_ARG_OK(r))
 __CPROVER_ensures(!g.func_calls ==> (!g.exc && g.stores == 1 && g.set_results == 1 && self->_result.state == r.state && (r.state == RS_Empty || self->_result.tag == r.tag) && g.func_dtors == 1))
 __CPROVER_ensures((g.func_calls && !g.exc && !CFG_ASYNC) ==> (g.stores == 1 && g.set_results == 1 && self->_result.state == RETSTATE && self->_result.tag == RETTAG && g.func_dtors == 1))
 __CPROVER_ensures(g.exc ==> (g.stores == 0 && g.set_results == 0 && g.func_dtors == 0 && g.caller_decrefs == 0))
-__CPROVER_ensures((g.func_calls && !g.exc && CFG_ASYNC) ==> (g.stores == 0 && g.set_results == 0 && g.func_dtors == 1 && self->_self.caller == g.ret_core && (g.set_inlines + g.steps == 1)))
+__CPROVER_ensures((g.func_calls && !g.exc && CFG_ASYNC) ==> (g.stores == 0 && g.set_results == 0 && g.func_dtors == 1 && self->_self.caller == g.ret_core && (g.set_inlines + g.steps + g.starts == 1)))
 """.replace('RETSTATE', RET_STATE).replace('RETTAG', RET_TAG)
 
 CONTRACT_IMPL = r"""Transfer CallImpl(Core* self, Val r)
 __CPROVER_requires(__CPROVER_is_fresh(self, sizeof(*self)) && g.func_calls == 0 && !g.exc && g.func_dtors == 0)
 __CPROVER_requires((r.kind == K_RESULT && r.state <= RS_Empty) || (r.kind == K_UNIT && CFG_RUN && CFG_ARGVOID))
-__CPROVER_requires(g.stores == 0 && g.set_results == 0 && g.caller_decrefs == 0 && !g.union_is_result && g.set_inlines == 0 && g.store_callbacks == 0 && g.steps == 0)
+__CPROVER_requires(g.stores == 0 && g.set_results == 0 && g.caller_decrefs == 0 && !g.union_is_result && g.set_inlines == 0 && g.store_callbacks == 0 && g.steps == 0 && g.starts == 0)
 __CPROVER_requires(CFG_RUN ? 1 : self->_self.caller != 0)
 __CPROVER_requires(CFG_ASYNC ? (g.ret_core != 0) : 1)
 __CPROVER_assigns(G_EFFECTS, self->_result, self->_self)
@@ -399,7 +408,7 @@ __CPROVER_ensures(!g.func_calls ==> (g.stores == 1 && g.set_results == 1 && self
 __CPROVER_ensures((g.func_calls && g_threw) ==> (g.stores == 1 && g.set_results == 1 && self->_result.state == RS_Exception && self->_result.tag == g.exc_tag))
 /* a normal return: Result as is, plain value as Value, void as Unit - or, for a returned Future / SharedFuture / Task, registration on the inner state */
 __CPROVER_ensures((g.func_calls && !g_threw && !CFG_ASYNC) ==> (g.stores == 1 && g.set_results == 1 && self->_result.state == RETSTATE && self->_result.tag == RETTAG))
-__CPROVER_ensures((g.func_calls && !g_threw && CFG_ASYNC) ==> (g.stores == 0 && g.set_results == 0 && self->_self.caller == g.ret_core && (g.set_inlines + g.steps == 1)))
+__CPROVER_ensures((g.func_calls && !g_threw && CFG_ASYNC) ==> (g.stores == 0 && g.set_results == 0 && self->_self.caller == g.ret_core && (g.set_inlines + g.steps + g.starts == 1)))
 /* C03: on every path the functor storage is destroyed exactly once */
 __CPROVER_ensures(g.func_dtors == 1)
 """.replace('RETSTATE', RET_STATE).replace('RETTAG', RET_TAG)
@@ -489,7 +498,7 @@ def core_jobs(ctx, props):
         src = defs + base + STUBS + ASYNC_STUBS + CONTRACT_VOID + ';\n' + CONTRACT_DONE + ';\n' + CONTRACT_ASYNC + '{' + insert_exc_checks(C['Core::CallResolveAsync']) + '}\n' + \
             'void harness(void) { ghost_reset(); Core* self; Val v; CallResolveAsync(self, v); if (g.exc) VF_CANARY("functor throws"); else VF_CANARY("functor returns"); }\n'
         out.append(Job('core/CallResolveAsync.' + name, props, src, 'harness', enforce='CallResolveAsync',
-                       replace=['CallResolveVoid', 'Done', 'DecRef', 'FUNCTOR_DTOR', 'SetInline', 'StoreCallback', 'MoveToCaller', 'Step'], funcs=[B['Core::CallResolveAsync']],
+                       replace=['CallResolveVoid', 'Done', 'DecRef', 'FUNCTOR_DTOR', 'SetInline', 'StoreCallback', 'MoveToCaller', 'Step', 'Start'], funcs=[B['Core::CallResolveAsync']],
                        canaries=2, expect=[r'postcondition'], meta={'fn': 'CallResolveAsync', 'cfg': cfg}))
         if cfg['CFG_CLASS'] != 1 and not (cfg['CFG_RUN'] and cfg['CFG_ARGVOID']):
             # --- CallResolveState (never instantiated for the Result class / the Unit fast path)
